@@ -152,6 +152,18 @@ def showWalk (r : Except Err Nat) : String :=
   | .error .fuel => "diverges"
   | .error e => "err " ++ e.name
 
+/-- `walk`: the repaired walks (visited set, nesting limit `limit` = `SQFS_MAX_DIR_NESTING` of the tree; fuel as in
+`fill_dir_depth_bounded` / `dir_rec_depth_bounded`, so `diverges` cannot be answered); with `current` the walks of
+the tree without `fixes/C05-dir-visited-set.patch` and `fixes/C05-nesting-limit.patch` (ancestor checks only) -/
+def walkOp (fixed : Bool) (limit : Nat) (spec : String) : String :=
+  match parseGraph spec with
+  | some (g, root, n) =>
+    if fixed then
+      "tree " ++ showWalk (readTreeV g limit (limit + 2) root) ++ " tar " ++ showWalk (tarWalkV g limit (limit + 1) root)
+    else
+      "tree " ++ showWalk (readTree g (n + 2) root) ++ " tar " ++ showWalk (tarWalk true g (n + 3) root)
+  | none => "bad-op"
+
 def step (s : St) (line : String) : St × String :=
   match words line with
   | ["img", h] => match fromHex h with
@@ -244,9 +256,9 @@ def step (s : St) (line : String) : St × String :=
         let r := resolveCompare s.fixed nm pa
         (s, (if r.1 then "ok" else "err NO_ENTRY") ++ unsafeTag r.2)
       | _, _ => (s, "bad-op")
-  | ["walk", spec] => match parseGraph spec with
-      | some (g, root, n) =>
-        (s, "tree " ++ showWalk (readTree g (n + 2) root) ++ " tar " ++ showWalk (tarWalk s.fixed g (n + 3) root))
+  | ["walk", spec] => (s, walkOp s.fixed 4096 spec)
+  | ["walkl", limit, spec] => match num limit with
+      | some limit => (s, walkOp s.fixed limit spec)
       | none => (s, "bad-op")
   | _ => (s, "bad-op")
 
